@@ -154,6 +154,117 @@ fn do_country(out: &mut Out, ctx: &mut Ctx, h: u32) {
     }
 }
 
+/// `infor h x<hex>`: the real `aircraft_information(address, Some(registration))` — jet1090's call when the
+/// aircraft database has a row for the address.  The registration given must come back unchanged; the country
+/// is the block's, unless a category of the block matches the registration and names another one.
+fn do_infor(out: &mut Out, h: u32, reg: &str) {
+    let hexs = format!("{h:06x}");
+    let enc: String = reg.bytes().map(|b| format!("{b:02x}")).collect();
+    let line = format!("infor {h} x{enc}");
+    let r = guarded(|| aircraft_information(&hexs, Some(reg)));
+    match &r {
+        None => {
+            out.case(&line, "panic");
+            // tail() itself panics on some out-of-range addresses (recorded under `tail`); anything else is new
+            if impl_tail(h).is_some() {
+                out.fail("info-panic", &line, "aircraft_information(address, Some(registration)) panicked");
+            }
+        }
+        Some(Err(_)) => {
+            out.case(&line, "err");
+            out.fail("info-err", &line, "aircraft_information refused a hexadecimal address");
+        }
+        Some(Ok(i)) => {
+            out.case(&line, &format!("ok reg={} country={} pattern={} category={}", opt(&i.registration), opt(&i.country), opt(&i.pattern), opt(&i.category)));
+            if i.registration.as_deref() != Some(reg) {
+                out.fail("info-registration", &line, &format!("registration {reg:?} given, {:?} returned", i.registration));
+            }
+            // independent reading of the table: first block containing the address, first category matching
+            let blk = PATTERNS.registers.iter().find(|r| match (&r.start, &r.end) {
+                (Some(s), Some(e)) => {
+                    let (s, e) = (u32::from_str_radix(&s[2..], 16).unwrap(), u32::from_str_radix(&e[2..], 16).unwrap());
+                    s <= h && h <= e
+                }
+                _ => false,
+            });
+            let want = blk.map(|b| {
+                let cat = b.categories.as_ref().and_then(|cs| cs.iter().find(|c| Regex::new(&c.pattern).unwrap().is_match(reg)));
+                cat.and_then(|c| c.country.clone()).unwrap_or_else(|| b.country.clone())
+            });
+            if i.country != want {
+                out.fail("country-mismatch", &line, &format!("country {:?}, the table says {want:?}", i.country));
+            }
+            out.stat(if i.category.is_some() { "infor:category" } else if i.country.is_some() { "infor:block" } else { "infor:no-block" });
+        }
+    }
+}
+
+/// a registration that a category pattern such as `^V(P|Q)-B`, `^EC-[YZ][A-Z]{2}`, `^CU-T1\\d{3}` or `^B-2.+[A-Z]`
+/// is meant to match (a naive walk over the pattern: alternatives, classes, `\\d`, `{n}`, `.`, `+`), padded
+fn sample_of(rng: &mut Rng, pat: &str) -> String {
+    let cs: Vec<char> = pat.chars().collect();
+    let mut res = String::new();
+    let mut last = String::new();
+    let mut i = 0;
+    while i < cs.len() {
+        let c = cs[i];
+        i += 1;
+        match c {
+            '^' | '$' | '+' | '*' | '?' => {}
+            '(' => {
+                let j = (i..cs.len()).find(|j| cs[*j] == ')').unwrap_or(cs.len());
+                let body: String = cs[i..j].iter().collect();
+                let alts: Vec<&str> = body.split('|').collect();
+                let pick = rng.below(alts.len() as u64) as usize;
+                last = sample_of(rng, alts[pick]);
+                res.push_str(&last);
+                i = j + 1;
+            }
+            '[' => {
+                let j = (i..cs.len()).find(|j| cs[*j] == ']').unwrap_or(cs.len());
+                let body = &cs[i..j];
+                let mut set: Vec<char> = vec![];
+                let mut k = 0;
+                while k < body.len() {
+                    if k + 2 < body.len() && body[k + 1] == '-' {
+                        set.extend(body[k]..=body[k + 2]);
+                        k += 3;
+                    } else {
+                        set.push(body[k]);
+                        k += 1;
+                    }
+                }
+                last = if set.is_empty() { String::new() } else { set[rng.below(set.len() as u64) as usize].to_string() };
+                res.push_str(&last);
+                i = j + 1;
+            }
+            '{' => {
+                let j = (i..cs.len()).find(|j| cs[*j] == '}').unwrap_or(cs.len());
+                let n: usize = cs[i..j].iter().collect::<String>().split(',').next().and_then(|x| x.parse().ok()).unwrap_or(1);
+                for _ in 1..n {
+                    res.push_str(&last);
+                }
+                i = j + 1;
+            }
+            '\\' => {
+                let d = cs.get(i).copied().unwrap_or('d');
+                i += 1;
+                last = if d == 'd' { rng.below(10).to_string() } else { d.to_string() };
+                res.push_str(&last);
+            }
+            '.' => {
+                last = "X".into();
+                res.push_str(&last);
+            }
+            _ => {
+                last = c.to_string();
+                res.push_str(&last);
+            }
+        }
+    }
+    res
+}
+
 fn do_tail(out: &mut Out, ctx: &mut Ctx, h: u32) {
     let r = impl_tail(h);
     out.case(&format!("tail {h}"), &s_tail(&r));
@@ -242,6 +353,10 @@ pub fn one(out: &mut Out, line: &str) {
         ["country", h] => do_country(out, &mut ctx, h.parse().unwrap()),
         ["infos", t] => match unhex(t) {
             Some(text) => do_infos(out, &text),
+            None => out.notes.push(format!("bad replay line: {line}")),
+        },
+        ["infor", h, t] => match unhex(t) {
+            Some(text) => do_infor(out, h.parse().unwrap(), &text),
             None => out.notes.push(format!("bad replay line: {line}")),
         },
         ["tails", lo, n] => do_tails(out, &mut ctx, lo.parse().unwrap(), n.parse().unwrap(), true),
@@ -372,6 +487,40 @@ pub fn run(out: &mut Out, rng: &mut Rng, thorough: bool) {
             }
         };
         do_infos(out, &text);
+    }
+    // aircraft_information with a registration GIVEN (jet1090 with an aircraft database): for every block of the
+    // table and every category of it, a registration the category is meant to match — at the block's first, last
+    // and a random address, and at an address of another block / of no block; plus registrations of no category,
+    // lower case, empty, and the block's own tail() where it has one
+    let regs: Vec<(u32, u32, Vec<String>)> = PATTERNS
+        .registers
+        .iter()
+        .filter_map(|r| match (&r.start, &r.end) {
+            (Some(s), Some(e)) => Some((
+                u32::from_str_radix(&s[2..], 16).ok()?,
+                u32::from_str_radix(&e[2..], 16).ok()?,
+                r.categories.as_ref().map(|cs| cs.iter().map(|c| c.pattern.clone()).collect()).unwrap_or_default(),
+            )),
+            _ => None,
+        })
+        .collect();
+    for (s, e, pats) in &regs {
+        for p in pats {
+            let reg = format!("{}{}", sample_of(rng, p), rng.pick(&["", "A", "AB", "12"]));
+            let hs = [*s, *e, *s + rng.below((*e - *s) as u64 + 1) as u32, rng.below(1 << 24) as u32];
+            let n = if thorough { 4 } else { 2 };
+            for k in 0..n {
+                do_infor(out, hs[(k + rng.below(4) as usize) % 4], &reg);
+            }
+        }
+        for reg in ["", "N12345", "n12345", "ZZ-ZZZ", "B-HXYZ9", "F-OABC", "vp-bab", "\u{e9}-ABC"] {
+            if rng.chance(1, 4) {
+                do_infor(out, *s + rng.below((*e - *s) as u64 + 1) as u32, reg);
+            }
+        }
+    }
+    for h in [0u32, 0xa00001, 0x840000, 0xffffff, 0x1000000, u32::MAX] {
+        do_infor(out, h, "F-GKXS");
     }
     // block digests: all 2^24 addresses (thorough) / 512 random blocks (quick)
     if thorough {
